@@ -23,7 +23,9 @@ import (
 	minttypes "github.com/cosmos/cosmos-sdk/x/mint/types"
 	stakingtypes "github.com/cosmos/cosmos-sdk/x/staking/types"
 
+	govv1beta1 "github.com/cosmos/cosmos-sdk/x/gov/types/v1beta1"
 	"github.com/terra-money/alliance/x/alliance"
+	alliancekeeper "github.com/terra-money/alliance/x/alliance/keeper"
 	alliancetypes "github.com/terra-money/alliance/x/alliance/types"
 )
 
@@ -529,7 +531,7 @@ func (x *Exec) run(op *Op) Res {
 		return x.tx(func(ctx sdk.Context) error {
 			rng := alliancetypes.RewardWeightRange{Min: parseDec(op.RWMin), Max: parseDec(op.RWMax)}
 			if op.Legacy {
-				return alliance.NewAllianceProposalHandler(ak)(ctx, &alliancetypes.MsgCreateAllianceProposal{
+				return legacyProposal(ctx, ak, &alliancetypes.MsgCreateAllianceProposal{
 					Title: "t", Description: "d", Denom: op.Denom, RewardWeight: parseDec(op.RW), RewardWeightRange: rng,
 					TakeRate: parseDec(op.TakeRate), RewardChangeRate: parseDec(op.ChRate), RewardChangeInterval: time.Duration(op.ChInt)})
 			}
@@ -542,7 +544,7 @@ func (x *Exec) run(op *Op) Res {
 		return x.tx(func(ctx sdk.Context) error {
 			rng := alliancetypes.RewardWeightRange{Min: parseDec(op.RWMin), Max: parseDec(op.RWMax)}
 			if op.Legacy {
-				return alliance.NewAllianceProposalHandler(ak)(ctx, &alliancetypes.MsgUpdateAllianceProposal{
+				return legacyProposal(ctx, ak, &alliancetypes.MsgUpdateAllianceProposal{
 					Title: "t", Description: "d", Denom: op.Denom, RewardWeight: parseDec(op.RW), RewardWeightRange: rng,
 					TakeRate: parseDec(op.TakeRate), RewardChangeRate: parseDec(op.ChRate), RewardChangeInterval: time.Duration(op.ChInt)})
 			}
@@ -554,7 +556,7 @@ func (x *Exec) run(op *Op) Res {
 	case KDelete:
 		return x.tx(func(ctx sdk.Context) error {
 			if op.Legacy {
-				return alliance.NewAllianceProposalHandler(ak)(ctx, &alliancetypes.MsgDeleteAllianceProposal{Title: "t", Description: "d", Denom: op.Denom})
+				return legacyProposal(ctx, ak, &alliancetypes.MsgDeleteAllianceProposal{Title: "t", Description: "d", Denom: op.Denom})
 			}
 			_, err := w.MsgSrv.DeleteAlliance(ctx, &alliancetypes.MsgDeleteAlliance{Authority: x.signer(op.Signer), Denom: op.Denom})
 			return err
@@ -640,6 +642,15 @@ func (x *Exec) run(op *Op) Res {
 		return x.nextBlock(op)
 	}
 	panic("unknown op kind " + op.K)
+}
+
+// legacyProposal is the path of a legacy governance proposal: x/gov validates the content when the
+// proposal is submitted (Content.ValidateBasic) and runs the module's handler when it passes.
+func legacyProposal(ctx sdk.Context, ak alliancekeeper.Keeper, content govv1beta1.Content) error {
+	if err := content.ValidateBasic(); err != nil {
+		return err
+	}
+	return alliance.NewAllianceProposalHandler(ak)(ctx, content)
 }
 
 func (w *World) delAddr(i int) sdk.AccAddress {
